@@ -21,6 +21,7 @@ func init() {
 	reg("C14", "C14.R1", "E7", "every operator constant is constructed and has an explicit case in every evaluation switch", 5, ruleEnumExhaustive)
 	reg("C14", "C14.R2", "E7", "tag -> primitive agreement: comparison tags, field operators, logical operators", 3, ruleTagSemantics)
 	reg("C14", "C14.R3", "E1", "evaluation methods are pure", 5, ruleCheckPure)
+	reg("C14", "C14.R5", "E2", "tree construction keeps the configured operands; operands of a nested node are spliced only for and/or", 1, ruleTreeConstruction)
 	reg("C14", "C14.R4", "E2", "legacy match_fields: or / and shapes and inversion", 2, ruleLegacyMatch)
 }
 
@@ -493,4 +494,78 @@ func ruleLegacyMatch(c *Ctx, r *Rule) {
 		g := c.clausesString(c.guards(top)[orCall.Block()])
 		r.Ob(strings.Contains(g, "mode") || strings.Contains(g, "MatchMode"), c.fnName(top)+"|or-under-mode", orCall.Pos(), "the or evaluator runs under the or-mode test: "+g)
 	}
+}
+
+// ruleTreeConstruction: a logical node is built from the operands it was configured with. The
+// only value-preserving rewrite is flattening a nested node of the same associative operator
+// (and/or); splicing the operands of a nested `not` changes the meaning (not(not(x)) -> not(x)).
+func ruleTreeConstruction(c *Ctx, r *Rule) {
+	notVal := int64(-1)
+	for _, e := range c.doifEnums() {
+		if e.typ.Obj().Name() == "logicalOpType" {
+			for _, k := range e.consts {
+				if k.Name() == "logicalNot" {
+					if v, ok := constInt64(k); ok {
+						notVal = v
+					}
+				}
+			}
+		}
+	}
+	if notVal < 0 {
+		r.Unresolved("doif.logicalNot")
+		return
+	}
+	n := 0
+	for _, a := range c.fieldAccesses(doifPkg, "logicalNode", "operands") {
+		if !a.write {
+			continue
+		}
+		n++
+		fn := a.fn
+		name := c.fnName(fn)
+		if p, isP := a.val.(*ssa.Parameter); isP && paramIndex(fn, p) >= 0 {
+			r.Ob(true, name+"|operands-as-configured", a.in.Pos(), "the node keeps exactly the operands it was given")
+			continue
+		}
+		// a rewritten operand list: every splice of another logical node's operands must exclude `not`
+		bad := ""
+		for _, b := range fn.Blocks {
+			for _, in := range b.Instrs {
+				call, ok := isBuiltinCall(in, "append")
+				if !ok || len(call.Call.Args) != 2 || !isLoadOfField(call.Call.Args[1], doifPkg, "logicalNode", "operands") {
+					continue
+				}
+				excl := false
+				for _, cl := range c.guards(fn)[b] {
+					for _, l := range cl {
+						op, _, y, ok := cmpLit(l)
+						if !ok {
+							continue
+						}
+						k, isK := constInt(y)
+						if !isK {
+							continue
+						}
+						if (op == token.NEQ && k == notVal) || (op == token.EQL && k != notVal && len(cl) == 1) {
+							excl = true
+						}
+					}
+				}
+				if !excl {
+					bad = c.pos(call.Pos())
+				}
+			}
+		}
+		msg := "operands are rewritten only by flattening nested and/or nodes"
+		if bad != "" {
+			msg = "the operands of a nested logical node are spliced into the parent at " + bad + " without excluding `not`: not(not(x)) is built as not(x)"
+		}
+		r.Ob(bad == "", name+"|operands-rewrite", a.in.Pos(), msg)
+	}
+	r.Inst(n)
+}
+
+func constInt64(k *types.Const) (int64, bool) {
+	return constant.Int64Val(k.Val())
 }
